@@ -218,6 +218,16 @@ func ruleDecoderOptions(c *Ctx) {
 				switch sc.Name() {
 				case "WithDecoderMaxMemory", "WithDecoderMaxWindow":
 					bad = append(bad, fmt.Sprintf("%s: %s builds the zstd decoder with %s: valid frames that declare a larger window or size are rejected", c.P.pos(call.Pos()), funcName(f), sc.Name()))
+				default:
+					// an option whose value is taken from the machine the process runs on: the library
+					// rejects some values (concurrency 0), and then every valid stream fails to decode there
+					if strings.HasPrefix(sc.Name(), "With") {
+						for _, a := range call.Call.Args {
+							if src := environmentSource(a, 0); src != "" {
+								bad = append(bad, fmt.Sprintf("%s: %s passes %s a value computed from %s: on a host where that value is one the library rejects, every valid stream fails", c.P.pos(call.Pos()), funcName(f), sc.Name(), src))
+							}
+						}
+					}
 				}
 			}
 		}
@@ -528,4 +538,42 @@ func ruleStoreCloseOwner(c *Ctx) {
 		return
 	}
 	c.check(len(bad) == 0, "store-close-owner", "store.Store", "store/store.go", fmt.Sprintf("%d Close calls on stores, all inside package store", n), strings.Join(uniq(bad), " || "), n)
+}
+
+// environmentSource: v is computed from a call into runtime / os (the machine,
+// not the data or the configuration).
+func environmentSource(v ssa.Value, d int) string {
+	if d > 6 {
+		return ""
+	}
+	switch x := v.(type) {
+	case *ssa.Call:
+		if sc := x.Call.StaticCallee(); sc != nil && sc.Pkg != nil {
+			switch sc.Pkg.Pkg.Path() {
+			case "runtime", "os":
+				return sc.Pkg.Pkg.Path() + "." + sc.Name() + "()"
+			}
+		}
+		for _, a := range x.Call.Args {
+			if s := environmentSource(a, d+1); s != "" {
+				return s
+			}
+		}
+	case *ssa.BinOp:
+		if s := environmentSource(x.X, d+1); s != "" {
+			return s
+		}
+		return environmentSource(x.Y, d+1)
+	case *ssa.Convert:
+		return environmentSource(x.X, d+1)
+	case *ssa.ChangeType:
+		return environmentSource(x.X, d+1)
+	case *ssa.Phi:
+		for _, e := range x.Edges {
+			if s := environmentSource(e, d+1); s != "" {
+				return s
+			}
+		}
+	}
+	return ""
 }
